@@ -193,6 +193,15 @@ func RunVectorEstimators(c *core.Ctx) {
 	logSchedule(c, res)
 	c.Logf("sequential: %v %s", seq.params, seq.err)
 	c.Logf("parallel:   %v %s", par.params, par.err)
+	if gamma != nil && t.Bool(1, 3) {
+		off := []float64{800, 1000, -800, -1000, 60, -60}[t.Choose(6)]
+		e3, _ := mk()
+		sh := estimateVector(e3, recs, shiftGamma(gamma, off), tp.ThreadPool{})
+		seqNoExtra := seq
+		sh.extra, seqNoExtra.extra = nil, nil
+		c.Logf("log-weights + %g: %v %s", off, sh.params, sh.err)
+		offsetInvariance(c, key, off, seqNoExtra, sh, 1e-6)
+	}
 	compare(c, key, cfg, seq, par, 1e-7)
 	inputsUnchanged(c, key, before, snapVecs(append(append([]ad.ConstVector{}, recs...), gamma)))
 	c.Nontriv = len(recs) >= 2
